@@ -331,9 +331,14 @@ def scenarios(tier, seed):
         for a, b in it.product(clean, repeat=2):
             scs.append(History([a, b]))
             scs.append(History([a, b], prequery=False))
-        core = [o for o in clean if o[0].split("(")[0] in (
-            "remove_parameter", "add_parameter", "remove_derived", "add_derived", "update_derived", "remove_reaction", "add_reaction",
-            "make_variable_static", "make_parameter_dynamic", "add_surrogate", "scale_parameter", "remove_variable", "add_variable")]
+        # triples over the operations that change what the cache holds (parameters, derived quantities, reactions, static/dynamic conversion)
+        core_labels = {
+            "remove_parameter(ku)", "remove_parameter(n)", "add_parameter(pnew)", "update_parameter(k1)", "scale_parameter(k2)",
+            "remove_derived(dp)", "remove_derived(d2)", "add_derived(d3 on d2)", "update_derived(d1 args)", "update_derived(dp -> state dependent)",
+            "remove_reaction(v1)", "add_reaction(v3)", "update_reaction(v1 stoich)", "make_variable_static(z)", "make_parameter_dynamic(ku,stoich v1)",
+            "remove_variable(z)", "add_variable(w)", "add_surrogate(s2)", "remove_surrogate(sur)", "update_surrogate(sur outputs)", "remove_data(dat)",
+        }
+        core = [o for o in clean if o[0] in core_labels]
         for tpl in it.product(core, repeat=3):
             scs.append(History(list(tpl)))
     return scs
